@@ -60,8 +60,14 @@ func genStoreCase(c *Cfg, i int, maxLen int) *StoreCase {
 
 // runStoreCase executes the sequence in lock-step with a reference map and returns the first discrepancy.
 func runStoreCase(cs *StoreCase) (key, detail string, stats map[string]int) {
+	return runStoreCaseWith(cs, zoo.Fixed(), nil)
+}
+
+// storeProbe is called after every step with the store and the reference map.
+type storeProbe func(si int, st StoreStep, s *flyt.SharedStore, ref map[string]any) (key, detail string)
+
+func runStoreCaseWith(cs *StoreCase, z []zoo.Named, probe storeProbe) (key, detail string, stats map[string]int) {
 	stats = map[string]int{}
-	z := zoo.Fixed()
 	s := flyt.NewSharedStore()
 	ref := map[string]any{}
 	var snaps []*snapshot
@@ -84,6 +90,34 @@ func runStoreCase(cs *StoreCase) (key, detail string, stats map[string]int) {
 		case "set-nil":
 			s.Set(k, nil)
 			ref[k] = nil
+		case "mutate-in-place": // the caller keeps a reference to what it stored and updates it in place
+			switch x := ref[k].(type) {
+			case []int:
+				if len(x) > 0 {
+					x[0] += 1000
+					stats["in_place_mutations"]++
+				}
+			case []string:
+				if len(x) > 0 {
+					x[0] += "'"
+					stats["in_place_mutations"]++
+				}
+			case []any:
+				if len(x) > 0 {
+					x[0] = si
+					stats["in_place_mutations"]++
+				}
+			case map[string]any:
+				if x != nil {
+					x["mutated"] = si
+					stats["in_place_mutations"]++
+				}
+			case map[string]int:
+				if x != nil {
+					x["mutated"] = si
+					stats["in_place_mutations"]++
+				}
+			}
 		case "delete":
 			s.Delete(k)
 			delete(ref, k)
@@ -219,6 +253,11 @@ func runStoreCase(cs *StoreCase) (key, detail string, stats map[string]int) {
 				if fmt.Sprint(sn.keys) != fmt.Sprint(sn.wantK) || len(sn.keys) != len(sn.wantK) {
 					return fail("snapshot-keys-changed", "step %d (%s): the slice returned by Keys at step %d changed: %q -> %q", si, st.Op, sn.origin, sn.wantK, sn.keys)
 				}
+			}
+		}
+		if probe != nil {
+			if pk, pd := probe(si, st, s, ref); pk != "" {
+				return pk, pd, stats
 			}
 		}
 		stats["steps"]++
